@@ -7,7 +7,7 @@
    operation ids      emitters/endpoints_emitter.py       (_deduplicate_operation_ids_globally: a counter per
                                                             method name; the new id is NOT registered: F07a)
    parameters         visit/endpoint/processors/parameter_processor.py (no de-duplication at all: F04c;
-                                                            a colliding request-body parameter is dropped: F20j)
+                                                            a colliding request-body parameter is dropped: F04d)
    The four `while candidate in seen` loops are instances of [assign]: a candidate stream per base name and
    a first-fit choice.  Python's loops are unbounded; the model gives them |seen|+1 steps, which by the
    pigeon-hole principle is always enough (Proofs/Dedup.v: pick_fresh_not_in).  No proofs here. *)
@@ -142,6 +142,34 @@ Definition ends_us_digits (s : str) : bool :=
 Definition guard_F07a (ids : list str) : bool := forallb (fun id => negb (ends_us_digits (method_name id))) ids.
 (* guard F04c: parameter names do not collide after sanitisation *)
 Definition guard_F04c (names : list str) : bool := nodupb (map method_name names).
-(* guard F20j: no parameter is named like the request-body parameter *)
-Definition guard_F20j (names : list str) (body : option str) : bool :=
+(* guard F04d: no parameter is named like the request-body parameter *)
+Definition guard_F04d (names : list str) (body : option str) : bool :=
   match body with Some b => negb (mem_str b (map method_name names)) | None => true end.
+
+(* ---------- component schemas in the loader (core/loader/schemas/extractor.py build_schemas) ----------
+   For each raw schema name n in document order: skipped when n or sanitize_class_name(n) is already a key of
+   context.parsed_schemas; otherwise parsed: IRSchema.__post_init__ sanitises the (already sanitised) name once
+   more, and the parser registers the schema under that name, or under the raw name when that key is taken
+   (schema_parser.py "collision detected").  Afterwards every raw name must be found under n or its sanitised
+   form, else RuntimeError (None).  Output: (registered key, position of the raw schema whose content it holds). *)
+Fixpoint build_keys_go (keys : list (str * nat)) (i : nat) (raw : list str) : list (str * nat) :=
+  match raw with
+  | [] => keys
+  | n :: r =>
+      let ks := map fst keys in
+      let c1 := class_name n in
+      if mem_str n ks || mem_str c1 ks then build_keys_go keys (S i) r
+      else let c2 := class_name c1 in
+           build_keys_go (keys ++ [(if mem_str c2 ks then n else c2, i)]) (S i) r
+  end.
+Definition build_keys (raw : list str) : option (list (str * nat)) :=
+  let keys := build_keys_go [] 0 raw in
+  let ks := map fst keys in
+  if forallb (fun n => mem_str n ks || mem_str (class_name n) ks) raw then Some keys else None.
+
+(* guard F20k: sanitize_class_name is not idempotent on names with one-letter words ("a_b" -> "AB" -> "Ab") *)
+Definition guard_F20k (raw : list str) : bool :=
+  forallb (fun n => str_eqb (class_name (class_name n)) (class_name n)) raw.
+(* guard F20m: no two schema names collide after sanitisation *)
+Definition guard_F20m (raw : list str) : bool := nodupb (map class_name raw).
+
